@@ -383,7 +383,7 @@ pub fn run(ctx: &Ctx) {
     );
     let wraps: Vec<String> = crate::gen::graph::WRAPS.iter().map(|w| w.to_string()).collect();
     ctx.enumerate("c10.names", &wraps, |w| json!({"wrap": w}), |w, stats| check_names(w, stats));
-    let cases = ctx.tier.pick(2000, 30000);
+    let cases = ctx.tier.pick(2000, 200000);
     ctx.search("c10.tree", cases, 96, |tape, stats| {
         let ty = random_case(tape);
         check_type(&ty, tape, n_values, stats)
